@@ -18,6 +18,18 @@ skipping off  an exception reaches the caller whose __cause__/__context__ chain
               after the first error; a further next() yields no data; sinks are
               closed; threading.enumerate() returns to its baseline
 
+Mechanism keys of the genuine defects found on the unchanged tree (kept firing):
+  filter-does-not-skip-errors
+      FilterFn.iterate never passes ignore_error: the error surfaces, or (when
+      another operator follows) everything after the failing record is lost
+  assign-with-batch-size-loses-tail-after-skipped-error
+      Assign with batch_size > 0: the re-batching generator dies with the
+      skipped error, every later record is silently dropped
+  sink-before-failing-operator-stays-open-until-iterator-dropped:threads
+      num_threads >= 1, skipping off: a sink upstream of the failing operator is
+      closed only when the caller drops the iterator
+Other violations are keyed '<kind>:<failing target>[:rebatch][:threads]'.
+
 Failing units are selected by position in the interpreter's evaluation and
 communicated to the real run by the canonical text of the call arguments, so
 the real function and the oracle fail on exactly the same calls, whatever the
